@@ -115,6 +115,7 @@ pub struct Obs {
     pub end: Option<Value>,  // final term
     pub end_kind: String,    // "value" | "stuck" | "fuel"
     pub hole_opened: u64,
+    pub whnf: Option<Value>,   // normalize_weak_head of the elaborated program (ground results of short runs): C06
     pub recheck: &'static str, // counterfactual for the hole-copy finding: the hole-free elaboration handed back to type_check
 }
 
@@ -128,7 +129,7 @@ fn hook_reset() {}
 fn hook_holes() -> u64 { 0 }
 
 pub fn observe(text: &str, fuel: usize, keep_steps: bool) -> Obs {
-    let mut o = Obs { stage: "lex", parsed: None, accepted: false, nerr: 0, first_err: String::new(), elab: None, ty: None, steps: vec![], nsteps: 0, end: None, end_kind: String::new(), hole_opened: 0, recheck: "na" };
+    let mut o = Obs { stage: "lex", parsed: None, accepted: false, nerr: 0, first_err: String::new(), elab: None, ty: None, steps: vec![], nsteps: 0, end: None, end_kind: String::new(), hole_opened: 0, whnf: None, recheck: "na" };
     let src: &'static str = tj::leak(text);
     let toks = match tokenizer::tokenize(None, src) {
         Ok(t) => t,
@@ -185,6 +186,11 @@ pub fn observe(text: &str, fuel: usize, keep_steps: bool) -> Obs {
         }
     }
     o.end = Some(tj::tj(&cur));
+    // C06 (i): the checker's way of computing (weak-head normalisation) on a program that ran to a ground value
+    if o.end_kind == "value" && o.nsteps <= 1500 && matches!(o.end.as_ref().unwrap()["k"].as_str(), Some("lit" | "true" | "false")) {
+        let el = tj::from_json(o.elab.as_ref().unwrap());
+        o.whnf = Some(tj::tj(&crate::normalizer::normalize_weak_head(&el, &mut vec![])));
+    }
     o
 }
 
@@ -203,13 +209,13 @@ fn event(src: &Value, o: &Obs, origin: &str) -> Value {
     let too_deep = o.end.as_ref().is_some_and(|e| depth(e) > 100) || o.steps.iter().any(|s| depth(s) > 100);
     if too_deep {
         let mut o2 = Obs { stage: o.stage, parsed: o.parsed.clone(), accepted: o.accepted, nerr: o.nerr, first_err: String::new(), elab: o.elab.clone(), ty: o.ty.clone(),
-            steps: vec![], nsteps: o.nsteps, end: None, end_kind: "fuel".into(), hole_opened: o.hole_opened, recheck: o.recheck };
+            steps: vec![], nsteps: o.nsteps, end: None, end_kind: "fuel".into(), hole_opened: o.hole_opened, whnf: None, recheck: o.recheck };
         o2.nsteps = o.nsteps;
         return event(src, &o2, origin);
     }
     json!({"ev": "prog", "origin": origin, "src": o.parsed.clone().unwrap_or(none.clone()), "gen": if src.is_null() { none.clone() } else { src.clone() }, "stage": o.stage, "accepted": o.accepted, "nerr": o.nerr,
            "elab": o.elab.clone().unwrap_or(none.clone()), "ty": o.ty.clone().unwrap_or(none.clone()), "steps": o.steps, "nsteps": o.nsteps,
-           "end": o.end.clone().unwrap_or(none), "endk": o.end_kind, "holes_opened": o.hole_opened, "recheck": o.recheck})
+           "end": o.end.clone().unwrap_or(none), "endk": o.end_kind, "holes_opened": o.hole_opened, "recheck": o.recheck, "whnf": o.whnf.clone().unwrap_or(json!({"k": "none"}))})
 }
 
 // One case of direction A.  Input: {"t":term,"holes":bool,"v":{ty,why,tyT,dord,out},"ev":bool}
